@@ -34,6 +34,30 @@ CHECK_DEADLOCK FALSE
 
 
 def seeded(rng, pid):
+    if pid == "C02" and rng.random() < 0.6:
+        # the join race of CoPool.tla (W1 miss, R1 store, R2 notify, W2 register) imposed through the pause point
+        nt = rng.choice([1, 2, 3])
+        hist, outcomes = [], {}
+        for t in range(1, nt + 1):
+            outcomes[str(t)] = rng.choice(["ok", "ok", "panic"])
+            hist.append({"a": "submit", "t": t})
+            for _ in range(rng.randint(0, 1)):
+                hist.append({"a": "body", "t": t, "step": "suspend"})
+            hist.append({"a": "body", "t": t, "step": "finish"})
+        w = rng.randint(1, nt)
+        hist += [{"a": "wait", "t": w, "ms": 300, "race": True}, {"a": "pass"}, {"a": "tick"}, {"a": "pass"}]
+        return {"nt": nt, "max": rng.choice([1, 2]), "min": 0, "hist": hist, "outcomes": outcomes, "prios": {}, "order": False,
+                "src": "forced-join-race"}
+    if pid == "C05":
+        # one worker, everything queued before the first pass, no more tasks than the local capacity
+        nt = rng.choice([3, 6, 8])
+        hist, prios = [], {}
+        for t in range(1, nt + 1):
+            prios[str(t)] = rng.choice([0, 0, 1, -3, 9, -(2 ** 63), 2 ** 63 - 1])
+            hist.append({"a": "submit", "t": t})
+            hist.append({"a": "body", "t": t, "step": "finish"})
+        hist += [{"a": "pass"}, {"a": "pass"}]
+        return {"nt": nt, "max": 1, "min": 0, "hist": hist, "outcomes": {}, "prios": prios, "order": True, "src": "priority-batch"}
     nt = rng.choice([3, 5, 8])
     mx = rng.choice([1, 2, 4])
     mn = 0   # with min_size > 0 an idle worker never yields, so a timed pass never returns (see DESIGN.md, observations)
@@ -101,6 +125,24 @@ def run(pid, tier):
     if tier == "thorough":
         insts.append(("MC_CoPool_big.cfg", None))
     mc_runs("CoPool", insts, tier, cov)
+    scs = stage(pid, tier, v, cov, wd, bindir)
+    if pid == "C12":
+        # EventLoops::stop while submitter threads are still submitting
+        import e2e
+        scs = scs + e2e.run_e2e("C12", tier, v, cov, wd, bindir)[:1]
+    cov["samples"] = [scs[0], scs[-1]]
+    cov["clauses_checked"] = sorted(CLAUSES[pid])
+    cov["exhaustive"] = False
+    return v.finish(cov, assumptions=ASSUMPTIONS)
+
+
+ASSUMPTIONS = ["one pool per process (pools share the process-wide task queue and steal from each other by design)",
+               "worker coroutines are identified through the co_submit / chg / cancel_drop hook events",
+               "latency clauses (stop_slow, late_join) use one monotonic clock and thresholds of half / 80% of a >= 200 ms limit"]
+
+
+def stage(pid, tier, v, cov, wd, bindir):
+    """generate pool scenarios, run them, validate, add this property's violations to v"""
     thorough = tier == "thorough"
     rng = random.Random(seed() * 13 + int(pid[1:]))
     scs = []
@@ -160,11 +202,7 @@ def run(pid, tier):
         dup = next(r for r in c3 if r.get("ev") == "task_run_b")
         c3.insert(c3.index(dup) + 1, dict(dup))
         cov["selftest"] = selftest_mutations("Trace_CoPool", wd, {"corrupt": c1, "delete": c2, "duplicate": c3})
-    cov["traces_validated_against_impl"] = len(scs)
-    cov["trace_records"] = info["total"]
-    cov["samples"] = [scs[0], scs[-1]]
-    cov["clauses_checked"] = sorted(CLAUSES[pid])
-    cov["exhaustive"] = False
-    return v.finish(cov, assumptions=["one pool per process (pools share the process-wide task queue and steal from each other by design)",
-                                      "worker coroutines are identified through the co_submit / chg / cancel_drop hook events",
-                                      "latency clauses (stop_slow, late_join) use one monotonic clock and thresholds of half / 80% of a >= 200 ms limit"])
+    cov["traces_validated_against_impl"] = cov.get("traces_validated_against_impl", 0) + len(scs)
+    cov["pool_trace_records"] = info["total"]
+    cov["pool_scenarios"] = len(scs)
+    return scs
